@@ -128,8 +128,17 @@ def _r1_tables(run):
     project = run.project
     tabs = _tables(project)
     if len(tabs) < 2:
-        run.undecided("C02.R1", None, None, "expected two literal quadrant tables in toasty/merge.py, found %d" % len(tabs),
-                      kind="tables-missing", construct="merge.<tables>", file="toasty/merge.py")
+        # no literal tables: the placement is computed; the evaluation under R2/R3 decides it
+        verdict, info = _placement_semantics(project)
+        f_ = project.fn(M + ".TileMerger.walk_callback")
+        if verdict is True:
+            run.holds("C02.R1", f_, None, "no literal quadrant tables; the computed placement equals the display layout / its vertical mirror (%d placements evaluated)" % info)
+            run.holds("C02.R1", f_, None, "child k = 2*dy+dx lands in column half dx")
+        elif verdict is False:
+            run.violated("C02.R1", f_, None, info, kind="quadrant-table")
+        else:
+            run.undecided("C02.R1", None, None, "expected two literal quadrant tables in toasty/merge.py, found %d, and the placement cannot be evaluated (%s)" % (len(tabs), info),
+                          kind="tables-missing", construct="merge.<tables>", file="toasty/merge.py")
         return
     for name, (rows, node) in sorted(tabs.items()):
         cls = _classify_table(rows)
@@ -149,46 +158,15 @@ def _r2_selection(run):
     run.note_func(f)
     ev = sym.make_evaluator(project, M, [])
     r = ev.run(f.node)
-    stores = [e for e in r.events if e.kind == "store" and e.term[1][0] == ("attr", ("sym", "self"), "_slices")]
-    if not stores:
-        run.undecided("C02.R2", f, None, "TileMerger.__init__ does not assign self._slices", kind="no-slices")
+    # which layout is used for which vertical parity: decided from the values that reach the updates (constructor state
+    # substituted into the callback), so that a table, two tables, or index arithmetic are all the same to the rule
+    verdict, info = _placement_semantics(project)
+    if verdict is True:
+        run.holds("C02.R2", f, None, "rows of the mosaic are mirrored exactly when the default format's vertical parity is +1 (%d placements evaluated)" % info)
+    elif verdict is False:
+        run.violated("C02.R2", f, None, info, kind="table-selection")
     else:
-        bad = False
-        seen = 0
-        for e in stores:
-            val = e.term[1][1]
-            conds = [c for c in e.pc if c[0] != "loop"]
-            if val[0] != "sym" or val[1] not in tabs or len(conds) != 1:
-                run.undecided("C02.R2", f, e.node, "cannot relate %s under %s to the quadrant tables" % (show(val), [show(c[0]) for c in conds]),
-                              kind="selection-shape")
-                bad = True
-                continue
-            c, pol = conds[0]
-            # condition: <pio>.get_default_vertical_parity_sign() == 1
-            sgn = None
-            if c[0] == "op" and c[1] in ("cmp:Eq", "cmp:NotEq"):
-                a, b = c[2]
-                if num_value(a) is not None:
-                    a, b = b, a
-                if "get_default_vertical_parity_sign" in show(a) and num_value(b) in (1, -1):
-                    sgn = int(num_value(b))
-                    is_eq = (c[1] == "cmp:Eq") == pol
-                    bottom_up = (sgn == 1) == is_eq
-            if sgn is None:
-                run.undecided("C02.R2", f, e.node, "table selection condition %s not recognised" % show(c), kind="selection-cond")
-                bad = True
-                continue
-            seen += 1
-            want = "opposite" if bottom_up else "matching"
-            if tabs[val[1]] != want:
-                run.violated("C02.R2", f, e.node, "for %s tile formats the merger uses %s (%s layout); expected the %s layout" % (
-                    "bottom-up (parity +1)" if bottom_up else "top-down (parity -1)", val[1], tabs[val[1]], want),
-                    kind="table-selection", table=val[1])
-                bad = True
-        if not bad and seen >= 2:
-            run.holds("C02.R2", f, stores[0].node, "opposite-parity table exactly when the default format's vertical parity is +1")
-        elif not bad:
-            run.undecided("C02.R2", f, None, "only %d table selections found" % seen, kind="selection-count")
+        run.undecided("C02.R2", f, None, "cannot evaluate the placement of the children: %s" % info, kind="selection-shape")
     # get_format_vertical_parity_sign: +1 only for 'fits'
     g = project.fn("toasty.image.get_format_vertical_parity_sign")
     run.note_func(g)
@@ -211,7 +189,7 @@ def _callback_eval(project):
     """walk_callback with pos_children and the merger's own helper methods inlined, the constant-length loops
     unrolled (the placement table has four entries of two indexers each)."""
     f = project.fn(M + ".TileMerger.walk_callback")
-    ev = sym.make_evaluator(project, M, ["toasty.pyramid.pos_children"], no_inline=["_get_min_max_of_children"])
+    ev = sym.make_evaluator(project, M, ["toasty.pyramid.pos_children"], inline_local=True, no_inline=["_get_min_max_of_children", "combine_child_ranges"])
     ev.self_class = M + ".TileMerger"
     slices_t = ("attr", ("sym", "self"), "_slices")
 
@@ -224,6 +202,70 @@ def _callback_eval(project):
     ev.static_len = static_len
     ev.unroll = True
     return f, ev, ev.run(f.node)
+
+
+def _placement_semantics(project):
+    """Where child k lands in the 512x512 mosaic, decided from the *values*: the merger's constructor state is substituted into
+    the callback, helpers are inlined, the four children unrolled, and the two buffer indexers of every update are evaluated
+    for both vertical parities of the tile format.  Expected: columns by dx, rows by dy -- mirrored for bottom-up formats
+    (parity +1).  -> (True, n) | (False, message) | (None, reason)"""
+    init = project.fn(M + ".TileMerger.__init__")
+    f = project.fn(M + ".TileMerger.walk_callback")
+    ev = sym.make_evaluator(project, M, ["toasty.pyramid.pos_children"], inline_local=True, no_inline=["_get_min_max_of_children"])
+    ev.self_class = M + ".TileMerger"
+    ev.inline_resolved = True
+    ev.unroll = True
+    ev.no_inline = ("_get_min_max_of_children", "read_image", "write_image", "update_into_maskable_buffer", "make_maskable_buffer", "clear", "asarray",
+                    "from_array", "get_default_format", "get_default_vertical_parity_sign", "_merger", "combine_child_ranges")
+    ri = ev.run(init.node)
+    facts = {k: v for k, v in (ri.env or {}).items() if isinstance(k, tuple) and k[0] == "attr" and k[1] == ("sym", "self")}
+    signs = {a for v in facts.values() for a in _subterms(v) if a[0] == "call" and a[1][0] == "attr" and a[1][2] == "get_default_vertical_parity_sign"}
+    r = ev.run(f.node, env=facts)
+    pos = ("sym", f.params()[1])
+    upd = [e for e in r.events if e.kind == "call" and e.term[1][0] == "attr" and e.term[1][2] == "update_into_maskable_buffer"]
+    if len(upd) != 4 or any(c[0] == "loop" for e in upd for c in e.pc):
+        return None, "the four per-child updates could not be unrolled (%d found)" % len(upd)
+    signs |= {a for e in upd for x in e.term[2] for a in _subterms(x) if a[0] == "call" and a[1][0] == "attr" and a[1][2] == "get_default_vertical_parity_sign"}
+    n = 0
+    for e in upd:
+        recv = e.term[1][1]
+        if not (recv[0] == "call" and recv[1][0] == "attr" and recv[1][2] == "read_image" and recv[2] and recv[2][0][0] == "nt"):
+            return None, "update receiver %s is not a child tile read in this callback" % show(recv)[:60]
+        px, py = recv[2][0][2][1], recv[2][0][2][2]
+        dx = num_value(sym.sub(px, ev.expr("2*p.x", {"p": pos})))
+        dy = num_value(sym.sub(py, ev.expr("2*p.y", {"p": pos})))
+        if dx not in (0, 1) or dy not in (0, 1):
+            return None, "child position %s is not (2x+dx, 2y+dy)" % show(recv[2][0])[:60]
+        b = ev.bound_args(e.term)[1] if ev.bound_args(e.term)[0] is not None else None
+        a = e.term[2]
+        if len(a) != 5:
+            return None, "update call has %d positional arguments" % len(a)
+        for sign in (1, -1):
+            envt = {sg: sign for sg in signs}
+            by, bx = teval(a[3], envt), teval(a[4], envt)
+            if by is UNKNOWN or bx is UNKNOWN:
+                return None, "cannot evaluate the buffer indexers %s / %s" % (show(a[3])[:60], show(a[4])[:60])
+            lower, upper = slice(256, None), slice(None, 256)
+            def same(s1, s2):
+                return isinstance(s1, slice) and (s1.start or 0, s1.stop if s1.stop is not None else 512, s1.step or 1) == (s2.start or 0, s2.stop if s2.stop is not None else 512, 1)
+            rows_low = (dy == 1) != (sign == 1)
+            want_by, want_bx = (lower if rows_low else upper), (lower if dx == 1 else upper)
+            if not same(by, want_by) or not same(bx, want_bx):
+                return False, "child (dx=%d, dy=%d) of a %s pyramid is placed at buffer[%s, %s]; expected buffer[%s, %s]" % (
+                    dx, dy, "bottom-up (FITS)" if sign == 1 else "top-down", by, bx, want_by, want_bx)
+            n += 1
+    return True, n
+
+
+def _subterms(t, acc=None):
+    acc = [] if acc is None else acc
+    if isinstance(t, tuple):
+        if t and isinstance(t[0], str):
+            acc.append(t)
+        for x in t:
+            if isinstance(x, tuple):
+                _subterms(x, acc)
+    return acc
 
 
 def _is_buffer_term(t):
@@ -274,6 +316,8 @@ def _r3_r5_callback(run):
                 problems.append((e, "update-args", "update call arguments are %s; expected (mosaic buffer, slice(None), slice(None), by, bx)" % [show(x)[:50] for x in a]))
                 continue
             ks = [k for k in range(4) if (a[3], a[4]) == (("item", ("item", slices_t, k), 0), ("item", ("item", slices_t, k), 1))]
+            if not ks and _placement_semantics(project)[0] is True:
+                ks = [j]          # not a table entry, but the evaluated indexers are the right ones for this child (see R2)
             if not ks:
                 sw = [k for k in range(4) if (a[4], a[3]) == (("item", ("item", slices_t, k), 0), ("item", ("item", slices_t, k), 1))]
                 problems.append((e, "update-args", "child %d is placed at buffer indexers (%s, %s); expected the table entry's (rows, cols) = (by, bx)%s" % (
